@@ -109,6 +109,13 @@ CHECKS = {
             "were actually neutralised.",
             "Trusted: the harness' PQR readers (columns / tokens). Runs that fail are C12's subject and only counted "
             "here.", "DESIGN.md#c09"),
+    "C10": ("exploration", "differential execution monitor: one generated structure encoded as PDB and (by an independent writer) as mmCIF, both through the real main_driver, written atoms compared as multisets",
+            "Every structure (with alt-locs, insertion codes, formal charges, 4-character names, several models, "
+            "negative coordinates, wwPDB-style label ids that differ from auth ids, both missing-value marker "
+            "conventions) is run twice; the multisets of (resName, resSeq, atom, x, y, z, charge, radius) token text "
+            "must be equal and the mmCIF-flavoured file must carry its trailer.",
+            "Trusted: the harness' mmCIF writer (atom_site loop in wwPDB layout + header categories copied from "
+            "tests/data/1FAS.cif). Only the installed mmcif-pdbx 2.1.0 is exercised.", "DESIGN.md#c10"),
 }
 
 NOT_APPLICABLE = {}
